@@ -8,10 +8,11 @@
 (*                                                                         *)
 (*   [t |-> "null"]                                                        *)
 (*   [t |-> "bool", b |-> TRUE]                                            *)
-(*   [t |-> "num",  lit |-> "1.0", nc |-> "1e0"]                           *)
-(*        lit: the literal text (compared as text); nc: a canonical        *)
-(*        spelling of the number's numeric value, used ONLY to recognise   *)
-(*        the don't-care "numerically equal but spelled differently"       *)
+(*   [t |-> "num",  lit |-> <<49,46,48>>]                                  *)
+(*        lit: the literal text as code points (compared as text);         *)
+(*        NumClass(lit) is a canonical form of the numeric value, used     *)
+(*        ONLY to recognise the don't-care "numerically equal, spelled     *)
+(*        differently"                                                     *)
 (*   [t |-> "str",  cp |-> <<97,47,98>>]   decoded code points             *)
 (*   [t |-> "arr",  e |-> <<v1, ...>>]                                     *)
 (*   [t |-> "obj",  m |-> << [k |-> cps, v |-> v1], ... >>]  ordered       *)
@@ -24,7 +25,36 @@ EXTENDS Integers, Sequences, FiniteSets
 
 Null      == [t |-> "null"]
 Bool(b)   == [t |-> "bool", b |-> b]
-Num(l, c) == [t |-> "num", lit |-> l, nc |-> c]
+(***************************************************************************)
+(* NumClass(lit): sign, significant digits without leading/trailing zeros  *)
+(* and decimal exponent of a number literal (RFC 8259 number syntax).      *)
+(***************************************************************************)
+NcIsDigit(c) == c >= 48 /\ c <= 57
+RECURSIVE NcVal(_)
+NcVal(t) == IF t = <<>> THEN 0 ELSE NcVal(SubSeq(t, 1, Len(t)-1)) * 10 + (t[Len(t)] - 48)
+NcFirst(s, P(_)) == IF \E i \in 1..Len(s) : P(s[i]) THEN CHOOSE i \in 1..Len(s) : P(s[i]) /\ \A j \in 1..(i-1) : ~P(s[j]) ELSE 0
+RECURSIVE NcStripLead(_)
+NcStripLead(d) == IF d # <<>> /\ d[1] = 48 THEN NcStripLead(Tail(d)) ELSE d
+RECURSIVE NcStripTrail(_, _)
+NcStripTrail(d, e) == IF d # <<>> /\ d[Len(d)] = 48 THEN NcStripTrail(SubSeq(d, 1, Len(d)-1), e + 1) ELSE [d |-> d, e |-> e]
+NumClass(lit) ==
+  LET neg  == lit # <<>> /\ lit[1] = 45
+      s    == IF neg THEN Tail(lit) ELSE lit
+      ei   == NcFirst(s, LAMBDA c : c = 101 \/ c = 69)
+      mant == IF ei = 0 THEN s ELSE SubSeq(s, 1, ei - 1)
+      ex   == IF ei = 0 THEN <<>> ELSE SubSeq(s, ei + 1, Len(s))
+      exNeg == ex # <<>> /\ ex[1] = 45
+      exDig == NcStripLead(IF ex # <<>> /\ (ex[1] = 45 \/ ex[1] = 43) THEN Tail(ex) ELSE ex)
+      di   == NcFirst(mant, LAMBDA c : c = 46)
+      ip   == IF di = 0 THEN mant ELSE SubSeq(mant, 1, di - 1)
+      fp   == IF di = 0 THEN <<>> ELSE SubSeq(mant, di + 1, Len(mant))
+      big  == Len(exDig) > 8
+      e0   == IF big THEN 0 ELSE (IF exNeg THEN 0 - NcVal(exDig) ELSE NcVal(exDig)) - Len(fp)
+      st   == NcStripTrail(NcStripLead(ip \o fp), e0)
+  IN  IF st.d = <<>> THEN [zero |-> TRUE, neg |-> FALSE, d |-> <<>>, e |-> 0, big |-> <<>>]
+      ELSE [zero |-> FALSE, neg |-> neg, d |-> st.d, e |-> st.e, big |-> IF big THEN ex ELSE <<>>]
+
+Num(l)    == [t |-> "num", lit |-> l]
 Str(cp)   == [t |-> "str", cp |-> cp]
 Arr(e)    == [t |-> "arr", e |-> e]
 Obj(m)    == [t |-> "obj", m |-> m]
@@ -72,7 +102,7 @@ JEqNumeric(a, b) ==
   IF a.t # b.t THEN FALSE
   ELSE CASE a.t = "null" -> TRUE
          [] a.t = "bool" -> a.b = b.b
-         [] a.t = "num"  -> a.nc = b.nc
+         [] a.t = "num"  -> NumClass(a.lit) = NumClass(b.lit)
          [] a.t = "str"  -> a.cp = b.cp
          [] a.t = "arr"  -> /\ Len(a.e) = Len(b.e)
                             /\ \A i \in 1..Len(a.e) : JEqNumeric(a.e[i], b.e[i])
